@@ -124,7 +124,7 @@ CHECKS['C12'] = dict(
 CHECKS['C13'] = dict(
     technique='runtime monitors on the real path-request flow: receiver GSNR / penalty recomputation from recorded '
               'arrays; differential oracle (every candidate mode through the fixed-mode flow on a fresh copy, '
-              'thresholds placed adversarially around the measured metric) for verdicts and automatic selection',
+              'thresholds placed adversarially around the measured metric and, for the fixed mode, exactly on it) for verdicts and automatic selection',
     text='Each request is run through planning(); the verdict and the selected mode must agree with an oracle that '
          'knows, by construction, on which side of each threshold every mode lies. Exploration.',
     note='Ties not generated; the fresh fixed-mode evaluation is the reference; one listed known finding (same baud '
